@@ -665,6 +665,11 @@ def fit_predict_degenerate_bounded_instance(pinned=False):
         if model == 'cbmm':
             F1 = slice(0, 1)
             y, init, it = y[F1], init[F1], 1
+        # single precision observations / embeddings for every fourth scene (magnitudes inside the range of the type)
+        single = (not pinned) and inp['seed'] % 4 == 3 and data not in ('tiny', 'huge')
+        if single:
+            y = y.astype(np.complex64 if cplx else np.float32)
+            emb = emb.astype(np.float32)
         try:
             with np.errstate(all='ignore'):
                 if model in ('gcacgmm', 'vmfcacgmm'):
@@ -678,7 +683,7 @@ def fit_predict_degenerate_bounded_instance(pinned=False):
                     post = cls().fit_predict(y, initialization=init, iterations=it, weight_constant_axis=inp['wca'])
         except Exception as e:      # noqa  an explicit exception is an admissible outcome
             return {'raised': type(e).__name__, 'post': None, 'shape': (y.shape[0], K, N), 'model': model}
-        tag = '%s,%s,norm=%s' % (model, data, inp['norm'] if model in ('cacgmm', 'gcacgmm', 'vmfcacgmm') else '-')
+        tag = '%s,%s,norm=%s%s' % (model, data, inp['norm'] if model in ('cacgmm', 'gcacgmm', 'vmfcacgmm') else '-', ',single' if single else '')
         return {'raised': None, 'post': np.asarray(post), 'shape': (y.shape[0], K, N), 'model': tag}
 
     def ensures(sp, inp, out):
@@ -689,7 +694,9 @@ def fit_predict_degenerate_bounded_instance(pinned=False):
         yield 'documented-shape[%s]' % out['model'], bool(p.shape == out['shape'])
         yield 'finite-in-[0,1][%s]' % out['model'], bool(np.all(np.isfinite(p)) and np.all(p >= 0) and np.all(p <= 1 + 1e-12))
         if p.shape == out['shape'] and np.all(np.isfinite(p)):
-            yield 'sums-to-one[%s]' % out['model'], bool(np.allclose(p.sum(-2), 1.0, rtol=0, atol=1e-8))
+            # up to rounding of the element type of the returned array (single precision observations may give a float32 posterior)
+            atol_ = 1e-8 if p.dtype == np.float64 else 2e-5
+            yield 'sums-to-one[%s]' % out['model'], bool(np.allclose(p.sum(-2), 1.0, rtol=0, atol=atol_))
 
     return Instance('C01', 'pb_bss.distribution.*Trainer.fit_predict', 'bounded-fit_predict-on-degenerate-data' + ('-pinned-known-finding-%s' % pinned if pinned else ''),
                     make, call, ensures, mode='bounded', bounded_n=1 if pinned else 300, frame=False, fixed_seed=bool(pinned))
